@@ -11,6 +11,7 @@ func init() {
 			Harness{Fn: "ZZC01Expr", Quick: p("D", 1), Thorough: p("D", 2), ThoroughBudget: 25 * time.Minute, Expect: []string{"expr-ok", "witness:end"}, Cross: true},
 			Harness{Fn: "ZZC01Pairs", Expect: []string{"pair", "expr-ok", "witness:end"}},
 			Harness{Fn: "ZZC01Args", Expect: []string{"args-ok", "witness:end"}},
+			Harness{Fn: "ZZC01Effects", Quick: p("NE", 3), Thorough: p("NE", 4), Expect: []string{"effects-ok", "witness:end"}},
 			Harness{Fn: "ZZC01Lists", Quick: p("N", 3), Thorough: p("N", 4), Expect: []string{"lists-ok", "witness:end"}},
 		)},
 		Assumptions: []string{
@@ -49,6 +50,8 @@ func init() {
 		ID: "C09", Title: "Basic values are copied, composites are shared", Level: "model_checking",
 		Units: []Unit{evalUnit([]string{"evaluator/common.go", "evaluator/c09.go"},
 			Harness{Fn: "ZZC09Alias", Expect: []string{"alias-ok", "witness:end"}},
+			Harness{Fn: "ZZC09ErrCopies", Expect: []string{"errcopies-ok", "witness:end"}},
+			Harness{Fn: "ZZC09Fresh", Expect: []string{"fresh-ok", "witness:end"}},
 		)},
 		Assumptions: []string{
 			"scenario table: 46 alias scenarios = way the alias is made (declaration, assignment, argument, variadic argument, return, array element, map value, any wrapping, loop variable, slice, concatenation, repetition, err/errmsg read) x update (variable, element, field, del, inside callee) x observation; old and new values are unconstrained symbolic numbers",
@@ -65,6 +68,7 @@ func init() {
 		Units: []Unit{evalUnit([]string{"evaluator/common.go", "evaluator/c04.go"},
 			Harness{Fn: "ZZC04Assign", Quick: p("D", 1), Thorough: p("D", 2), Expect: []string{"accepted", "rejected", "witness:end"}},
 			Harness{Fn: "ZZC04Infer", Expect: []string{"infer-ok", "witness:end"}},
+			Harness{Fn: "ZZC04Range", Quick: p("RN", 2), Thorough: p("RN", 3), Expect: []string{"range-accepted", "range-rejected", "witness:end"}},
 			Harness{Fn: "ZZC04InferGen", Quick: p("K", 2), Thorough: p("K", 3), ThoroughBudget: 25 * time.Minute, Expect: []string{"infergen-ok", "infergen-oracle", "infergen-assign", "witness:end"}},
 			Harness{Fn: "ZZC04Ops", Expect: []string{"ops-accepted", "witness:end"}},
 		)},
@@ -82,6 +86,8 @@ func init() {
 		ID: "C05", Title: "Invalid programs are rejected and nothing of them runs", Level: "model_checking",
 		Units: []Unit{evalUnit([]string{"evaluator/common.go", "evaluator/c05.go"},
 			Harness{Fn: "ZZC05Reject", Expect: []string{"valid-runs", "rejected", "witness:end"}},
+			Harness{Fn: "ZZC05Returns", Quick: p("RD", 1, "RK", 3), Thorough: p("RD", 1, "RK", 3), Expect: []string{"returns-rejected", "returns-accepted", "witness:end"}},
+			Harness{Fn: "ZZC05Returns", Label: "deep", ThoroughOnly: true, Thorough: p("RD", 2, "RK", 1), ThoroughBudget: 25 * time.Minute, Expect: []string{"returns-rejected", "returns-accepted", "witness:end"}},
 		), mainUnit([]string{"main/c18.go", "main/c18native.go", "main/c05m.go"},
 			Harness{Fn: "ZZC05CLI", Expect: []string{"cli-rejected", "cli-valid", "witness:end"}},
 		)},
@@ -147,8 +153,9 @@ func init() {
 	})
 	register(Check{
 		ID: "C08", Title: "Parsing, formatting and running are deterministic", Level: "model_checking",
-		Units: []Unit{evalUnit([]string{"evaluator/common.go", "evaluator/c08.go"},
+		Units: []Unit{evalUnit([]string{"evaluator/common.go", "evaluator/c08.go", "evaluator/c09.go", "evaluator/c02.go", "evaluator/c04.go", "evaluator/gen.go"},
 			Harness{Fn: "ZZC08Orders", Expect: []string{"orders-ok", "witness:end", "maprange:permuted:2", "maprange:permuted:3"}, MaxInstr: 40_000_000},
+			Harness{Fn: "ZZC08Corpus", Expect: []string{"corpus-ok", "witness:end"}, MaxInstr: 40_000_000},
 		)},
 		Assumptions: []string{
 			"the adversarial schedule is Go's map iteration order: every range over a Go map of up to four entries executed in evy code is a choice point and all orders are explored (larger maps — the built-in function table — are ranged in canonical order: their loops only copy into other maps; sites listed under reach_markers)",
